@@ -63,6 +63,30 @@ INFO = {
  'C10r2-B': ('C10', 'a shebang line ending in CRLF', ['C10 quick'], 'round 2'),
  'C11r2-A': ('C11', 'call_parentheses = Input, a parenthesis-less call followed by `.name` / `[e]` / `:m()`', ['C11 quick'], 'round 2'),
  'C11r2-B': ('C11', 'space_after_function_names = Calls/Always and a call whose parentheses are added by the formatter', ['C11 quick'], 'round 2'),
+ 'C04r3-A': ('C04', 'line_endings = Windows and a multi-line long-bracket string whose line breaks are already CRLF (becomes CR CR LF)', ['C04 quick'], 'round 3'),
+ 'C04r3-B': ('C04', 'a long-bracket string of level >= 1 as index / table key: `t[ [=[x]=] ]` becomes the call `t[[=[x]=]]`', ['C04 quick', 'C01 quick'], 'round 3'),
+ 'C07r3-A': ('C07', 'call_parentheses None / NoSingleString / NoSingleTable and a single argument in redundant parentheses that is not a string or table (`f((g()))`): the library call never returns', ['C07 quick'], 'round 3; needed the E1 watchdog (a call that does not return is reported with its input instead of hanging the explorer)'),
+ 'C07r3-B': ('C07', 'a `while` whose condition hangs and contains a table or a collapsible function, under a range that starts after byte 0 and contains the statement: panic', ['C07 quick'], 'round 3; missed at first: needed conditions with containers in the catalogue and block statements BEHIND another statement in the range plan'),
+ 'C09r3-A': ('C09', 'a range whose start falls inside a statement (the statement only overlaps the range)', ['C09 quick'], 'round 3'),
+ 'C09r3-B': ('C09', 'the empty range at the top of the file (`--range-start 0 --range-end 0`)', ['C09 quick'], 'round 3'),
+ 'C12r3-A': ('C12', 'sort_requires, one group of >= 21 requires containing a duplicated NAME (unstable sort switches algorithm above 20 elements)', ['C12 quick'], 'round 3; needed the large-group family (21..64 members x 5 base orders x every pair of positions for the duplicate), added on reading the description and before running it'),
+ 'C12r3-B': ('C12', '`local a, b = require("x")` next to requires: treated as a require, moves and merges groups', ['C12 quick'], 'round 3'),
+ 'C13r3-A': ('C13', '--check --output-format json and a file that differs only in line terminators (CRLF, missing final newline): exit 0, nothing printed', ['C13 quick'], 'round 3; missed at first: needed the terminator-only file kinds'),
+ 'C13r3-B': ('C13', 'a directory argument followed by an explicitly named file that the traversal does not select (`. e.txt`)', ['C13 quick', 'C16 quick'], 'round 3; C16 reported it, C13 only after the directory + explicit non-Lua file layout was added'),
+ 'C14r3-A': ('C14', 'write mode with --output-format json and a file failing for a non-parse reason; or a missing path among the arguments: exit 0', ['C14 quick'], 'round 3; missed at first: needed the JSON format and the missing / not-a-directory argument kinds in C14'),
+ 'C14r3-B': ('C14', 'a read-only (0444) file needing reformatting, process not root: silently replaced through rename', ['C14 quick'], 'round 3; missed at first: needed runs as an unprivileged user (permission bits mean nothing to root) and the inode / mode comparison for failing files'),
+ 'C15r3-A': ('C15', '--search-parent-directories, XDG_CONFIG_HOME set but empty, configuration in $HOME/.config', ['C15 quick'], 'round 3'),
+ 'C15r3-B': ('C15', 'a target leaving the working directory (`../o.lua`)', ['C15 quick'], 'round 3'),
+ 'C16r3-A': ('C16', 'a directory argument below the working directory whose PARENT (not the cwd) holds the .styluaignore', ['C16 quick'], 'round 3; needed the deeper directory argument `s/t` (added on reading the description and before running it)'),
+ 'C16r3-B': ('C16', 'a --glob list consisting only of negated patterns', ['C16 quick'], 'round 3; needed that glob list (added on reading the description and before running it)'),
+ 'C17r3-A': ('C17', 'stdin, --output-format json, input that does not parse: the error record goes to stdout', ['C17 quick'], 'round 3'),
+ 'C17r3-B': ('C17', '--respect-ignores --stdin-filepath naming a path re-included by a negated .styluaignore pattern', ['C17 quick', 'C16 quick'], 'round 3; C17 needed the negated pattern in its ignore file (added on reading the description and before running it)'),
+ 'C18r3-A': ('C18', 'JSON format, a pure insertion between unchanged lines', ['C18 quick'], 'round 3'),
+ 'C18r3-B': ('C18', '--check --output-format summary with already formatted text on stdin: listed as differing, exit 1', ['C18 quick', 'C17 quick'], 'round 3; C17 reported it, C18 only after every pair was also sent through stdin'),
+ 'C19r3-A': ('C19', 'an argument that makes the walker fail with an error other than "not found" (`plain.lua/`) after a file: format() returns without joining the pool', ['C19 quick'], 'round 3; needed the not-a-directory argument kind in the E3 scenarios (added on reading the description and before running it)'),
+ 'C19r3-B': ('C19', '--num-threads 1: the pool loses its second thread and the output job starves the formatting jobs (deadlock)', ['C19 quick'], 'round 3; needed the scheduler hook to report a deadlock of the program as an observation (exit 96) instead of a machinery error, and a run timeout in E2'),
+ 'C20r3-A': ('C20', 'plain stdin, no stylua.toml, an .editorconfig key and a conflicting command line flag', ['C20 quick', 'C15 quick'], 'round 3; C15 reported it, C20 only after the flag-over-conflicting-file carriers through stdin were added'),
+ 'C20r3-B': ('C20', '--search-parent-directories and a malformed stylua.toml in $XDG_CONFIG_HOME / $HOME/.config: silently ignored', ['C20 quick'], 'round 3; missed at first: needed malformed files in every place the search consults'),
  'OWN-buildB': ('C05', 'default features only (the `#[cfg(not(feature = "luau"))]` branch of the hanging path): a parenthesised prefix expression `(e).k` at a width where it hangs loses its parentheses', ['C05 quick (build B)'], 'my own change, to show that build B sees what build A (all syntaxes) cannot; the repository suite (153 tests, default features) passes with it'),
  'REV-json': ('C18', 'revert of fix b... (JSON diff keeps only the first inserted line)', ['C18 quick'], 'my own fix reverted, to show the check rediscovers the defect'),
  'REV-exitjson': ('C13', 'revert of the JSON-mode parse error exit status fix', ['C13 quick'], 'own fix reverted'),
